@@ -23,8 +23,8 @@ def RULE(tier):
         "(pending-ack | immediate accept | reject), exchange spontaneous ack / reject / partial fill / full fill / "
         "decide pending request / unsolicited cancel / expire / suspend / resume. Bounded-exhaustive DFS over all "
         f"action sequences to depth {DEPTH[tier]} (state-hash dedup) plus Hypothesis walks up to {WALK[tier]} actions with drawn ClOrdID "
-        "roots ('-'-rich near misses of the '--<n>' suffix), prices, quantities (float and int objects, magnitudes 1e-5 .. 1e16) and fill fractions; three "
-        "long chains of 14 requests on one order (suffix --9 -> --10, some rejected, a fill in between); every prefix is "
+        "roots ('-'-rich near misses of the '--<n>' suffix), prices, quantities (float and int objects, magnitudes 1e-5 .. 1e16) and fill fractions; five "
+        "long chains of 14 requests on one order (suffix --9 -> --10, every 3rd / 4th / 5th / 10th rejected, a fill in between); every prefix is "
         "closed (deliver all, consume all, decide pending) on a copy. Per step: status is an FOrdStatus member; whenever "
         "can_cancel()/can_replace() the request builds without any exception, with an unused ClOrdID of the form <root>--<n> for the root the order was created with and OrigClOrdID = the "
         "exchange's live ClOrdID, and no request is outstanding. At closure: status, cum_qty, leaves_qty, price, qty equal (relative tolerance 1e-9) "
@@ -329,7 +329,7 @@ def run_walk(acc, root, price, qty, steps, maxlen):
 def long_chain(acc):
     """One order replaced / reject-ed many times in a row: the ClOrdID suffix crosses --9 -> --10 (and the exchange's ExecIDs
     cross digit counts), some requests rejected, a partial fill in between."""
-    for root, reject_every in (("ord", 0), ("a--", 4), ("x--y--z", 3)):
+    for root, reject_every in (("ord", 0), ("a--", 4), ("x--y--z", 3), ("order", 10), ("o-", 5)):
         w = World(root, 100, 10.0)
         case = {"long_chain": root, "reject_every": reject_every}
 
